@@ -79,7 +79,7 @@ def _json_twice(mi, v):
 
 
 _OPT_DEFAULTS = {'b': None, 'c': 'red', 'd': 1.5, 'e': False, 's': 'dflt',
-                 'l': []}
+                 'l': [], 't': None, 'u': 7}
 
 
 def _same(a, b):
